@@ -150,6 +150,7 @@ Record env := {
   e_clock : N;
   e_cwd : path;
   e_abs : path;                   (* absolute directory that holds the inputs *)
+  e_out : path;                   (* absolute output directory (-O): "inputs and OUTPUTS placed at another absolute location" *)
   e_shuffle : forall A : Type, N -> (A -> str) -> list A -> list A;
   e_shuffle_perm : forall A s k l, Permutation l (e_shuffle A s k l);
 }.
@@ -190,6 +191,7 @@ Inductive akind :=
 | KAbsSrc          (* T.source_file_path not reduced to .name; type_to_include_path(resolve=True) *)
 | KPickle          (* T | pickle : the pydsdl object, which carries its absolute source path *)
 | KCwd
+| KOutPath         (* the Namespace path API (output_folder, find_output_path_for_type, get_nested_types() paths, ...): output location *)
 | KPlatform        (* nunavut.platform_version: its ambient fields are gated in Python (sf_platform_gated) *)
 | KNsIter          (* get_nested_namespaces() in a template; "gated" here means: passed through a sort filter *)
 | KIncUnsorted     (* includes/imports filter called with an explicit sort argument *)
@@ -215,7 +217,10 @@ Inductive path_sort_site :=
 Definition path_sort_modelled (s : path_sort_site) : bool := match s with PsEnvLookupDirs => true | PsUnknown => false end.
 
 (* ambient reads in the Python sources *)
-Inductive read_kind := RClock | RCwd | RResolve | RAbsPath | REnviron | RPlatform | RRandom.
+Inductive read_kind := RClock | RCwd | RResolve | RAbsPath | REnviron | RPlatform | RRandom
+  | RLocale    (* text I/O without encoding=, locale module, default encodings *)
+  | RListdir   (* os.listdir / scandir / walk / glob / Path.iterdir|glob|rglob: order given by the file system *)
+  | RMtime.    (* st_mtime / getmtime / ... *)
 Inductive read_site :=
 | RdNowUtc            (* jinja/__init__.py _generate_code: self._env.now_utc = utcnow() *)
 | RdNowUtcInit        (* jinja/environment.py: now_utc = datetime(MINYEAR, 1, 1) -- a constant *)
@@ -224,6 +229,11 @@ Inductive read_site :=
 | RdListing           (* the path flows only into the stdout lister / print: --list-inputs, --list-outputs; no file content *)
 | RdCompareOnly       (* the path is an operand of ==/!=: a boolean that is the same for two relocated copies *)
 | RdDiagnostic        (* the path flows only into a logger call or an exception message *)
+| RdSortedListing     (* a directory listing consumed only through sorted() (directly, or via a set that is only sorted) *)
+| RdMembership        (* a directory listing used only for a membership / emptiness test *)
+| RdPpRunProgram      (* _postprocessors.py ExternalProgramEditInPlace: sys.executable to run the user's --pp-run-program script; that
+                         program is an input of the run and may do anything: outside the property *)
+| RdAsciiPackagedText (* read_text() without encoding= of packaged *.yaml files that are pure ASCII (checked at scan time) *)
 | RdIncludeResolve    (* jinja/__init__.py filter_type_to_include_path under `if resolve:`; template-visible: KAbsSrc site *)
 | RdPlatform          (* jinja/environment.py _create_platform_version (sf_platform_gated) *)
 | RdEnvIncludes       (* cli/__init__.py _extra_includes_from_env: an INPUT (lookup directories), not ambient state of the property *)
@@ -289,7 +299,7 @@ Definition src_facts_ok (f : src_facts) : bool :=
 
 Definition kind_eqb (a b : akind) : bool :=
   match a, b with
-  | KClock, KClock | KAbsSrc, KAbsSrc | KPickle, KPickle | KCwd, KCwd | KPlatform, KPlatform
+  | KClock, KClock | KAbsSrc, KAbsSrc | KPickle, KPickle | KCwd, KCwd | KOutPath, KOutPath | KPlatform, KPlatform
   | KNsIter, KNsIter | KIncUnsorted, KIncUnsorted | KTmplSets, KTmplSets => true
   | _, _ => false
   end.
@@ -352,7 +362,7 @@ Definition is_child (p c : nsname) : bool :=
   match c with [] => false | _ => strs_eqb (removelast c) p end.
 
 Inductive item := INs (n : nsname) | ITy (d : tydecl) | ISup (p : path).
-Record audit := { a_clock : N; a_abs : path }.
+Record audit := { a_clock : N; a_abs : path; a_out : path }.
 (* header lines that show ambient data *)
 Inductive hval := HClock (t : N) | HPath (p : path) | HOpt (v : option N).
 
@@ -365,10 +375,11 @@ Definition leak_of_read (e : env) (x : read_kind * read_site) : list (option hva
   else match fst x with
        | RClock => [Some (HClock (e_clock e))]
        | RCwd => [Some (HPath (e_cwd e))]
-       | _ => [Some (HPath (e_abs e))]
+       | RListdir => [order_probe e 12]
+       | _ => [Some (HPath (e_abs e)); Some (HPath (e_out e))]
        end.
 Definition leak_all (e : env) : list (option hval) :=
-  [Some (HClock (e_clock e)); Some (HPath (e_cwd e)); Some (HPath (e_abs e)); order_probe e 0].
+  [Some (HClock (e_clock e)); Some (HPath (e_cwd e)); Some (HPath (e_abs e)); Some (HPath (e_out e)); order_probe e 0].
 Definition unknown_leak (t : aux_tables) (e : env) : list (option hval) :=
   flat_map (fun x => if set_iter_ok x then [] else [order_probe e 10]) (t_set_iters t)
   ++ flat_map (leak_of_read e) (t_reads t)
@@ -409,7 +420,7 @@ Section Run.
   Variable render : env -> cfg -> item -> list nsname -> B.
 
   Definition audit_view (e : env) (c : cfg) : option audit :=
-    if c_embed_audit c then Some {| a_clock := e_clock e; a_abs := e_abs e |} else None.
+    if c_embed_audit c then Some {| a_clock := e_clock e; a_abs := e_abs e; a_out := e_out e |} else None.
 
   Definition body_view (e : env) (c : cfg) : option audit * list (option hval) :=
     (audit_view e c, unknown_leak (sf_tables sf) e).
@@ -494,6 +505,7 @@ Section Run.
          | KClock => Some (HClock (e_clock e))
          | KAbsSrc | KPickle => Some (HPath (e_abs e ++ src_of it))
          | KCwd => Some (HPath (e_cwd e))
+         | KOutPath => Some (HPath (e_out e ++ item_path c it))
          (* platform_version: stands for host data (build, compiler, platform string) when not gated in Python *)
          | KPlatform => if c_embed_audit c || negb (sf_platform_gated sf) then Some (HPath (e_abs e)) else None
          | KNsIter | KIncUnsorted => None
@@ -586,10 +598,10 @@ Proof. destruct l as [|x l]; [constructor|]. cbn. change (x :: l) with ([x] ++ l
 
 Definition mk_env (clock : N) (cwd abs : path) (which : N) : env :=
   match which with
-  | 0 => {| e_clock := clock; e_cwd := cwd; e_abs := abs; e_shuffle := shuffle_id; e_shuffle_perm := shuffle_id_perm |}
-  | 1 => {| e_clock := clock; e_cwd := cwd; e_abs := abs; e_shuffle := shuffle_rev; e_shuffle_perm := shuffle_rev_perm |}
-  | 3 => {| e_clock := clock; e_cwd := cwd; e_abs := abs; e_shuffle := shuffle_rev2; e_shuffle_perm := shuffle_rev2_perm |}
-  | _ => {| e_clock := clock; e_cwd := cwd; e_abs := abs; e_shuffle := shuffle_rot; e_shuffle_perm := shuffle_rot_perm |}
+  | 0 => {| e_clock := clock; e_cwd := cwd; e_abs := abs; e_out := removelast abs ++ [[111; 117; 116]]; e_shuffle := shuffle_id; e_shuffle_perm := shuffle_id_perm |}
+  | 1 => {| e_clock := clock; e_cwd := cwd; e_abs := abs; e_out := removelast abs ++ [[111; 117; 116]]; e_shuffle := shuffle_rev; e_shuffle_perm := shuffle_rev_perm |}
+  | 3 => {| e_clock := clock; e_cwd := cwd; e_abs := abs; e_out := removelast abs ++ [[111; 117; 116]]; e_shuffle := shuffle_rev2; e_shuffle_perm := shuffle_rev2_perm |}
+  | _ => {| e_clock := clock; e_cwd := cwd; e_abs := abs; e_out := removelast abs ++ [[111; 117; 116]]; e_shuffle := shuffle_rot; e_shuffle_perm := shuffle_rot_perm |}
   end.
 
 (* ---------------------------------------------------------------------------------------------- *)
@@ -619,7 +631,7 @@ Definition render_unit : env -> cfg -> item -> list nsname -> unit := fun _ _ _ 
 (* the audit view reaches the body: with auditing on, a body that prints it differs when the view differs *)
 Definition audit_eqb (a b : option audit) : bool :=
   match a, b with
-  | Some x, Some y => (a_clock x =? a_clock y) && strs_eqb (a_abs x) (a_abs y)
+  | Some x, Some y => (a_clock x =? a_clock y) && strs_eqb (a_abs x) (a_abs y) && strs_eqb (a_out x) (a_out y)
   | None, None => true
   | _, _ => false
   end.
@@ -655,6 +667,12 @@ Definition includes_agree (sf : src_facts) (c : cfg) (I : list tydecl) (e : env)
                     end) I.
 
 Definition drop_pickle (tbl : list site) : list site := filter (fun s => negb (is_py_pickle s)) tbl.
+
+Definition with_out (e : env) (out : path) : env :=
+  {| e_clock := e_clock e; e_cwd := e_cwd e; e_abs := e_abs e; e_out := out; e_shuffle := e_shuffle e; e_shuffle_perm := e_shuffle_perm e |}.
+Definition mk_env_out (clock : N) (cwd abs out : path) (which : N) : env := with_out (mk_env clock cwd abs which) out.
+Definition tbl_outpath : list site :=
+  [ {| s_lang := LC; s_group := GType; s_kind := KOutPath; s_gated := false; s_line := 1 |} ].
 
 (* quirk tables of the defects this property had in the pinned tree (documentation + refutations) *)
 Definition tbl_py_pickle : list site :=
